@@ -94,9 +94,11 @@ class Exchanges(LoopSpec):
         zi, zj = S.z(i), S.z(j)
         bi, bj = st.beta(zi), st.beta(zj)
         Li, Lj = F(st.rows(zi)), F(st.rows(zj))        # untempered log-densities of the two current points
-        vc.ensures("one_uniform_draw_per_pair", len(us) == 1)
         if len(us) != 1:
-            return
+            # the contract reads the decision of a pair as `u <= threshold` for THE uniform variate drawn while the pair is handled;
+            # with none or several it cannot say which comparison is the decision: undecided (the scripted run of the real swap()
+            # in the bounded layer decides), not a violation -- the property does not prescribe how many variates are drawn
+            raise Unsupported(f"{len(us)} uniform variates drawn while one proposed pair is handled (restructured loop?)")
         u = S.z(us[0][2])
         # accepted with probability min(1, exp((1/T_i - 1/T_j)(L_j - L_i)))
         thr = S.uf("exp", (bi - bj) * (Lj - Li))
